@@ -487,6 +487,8 @@ class CallMixin:
                 posts = posts[1:]
             elif not fn.pure:
                 self.havoc_for_spec(q, fn.modifies)
+            if getattr(fn, "edits_ir", False) and not nochange:
+                self.mark_dirty(q, f"{fn.qual or fn.fqn} at {w}")
             q.old_heaps.append(pre_heap)
             for s in posts:
                 q.assume(self.spec_bool(s, q, env))
@@ -495,6 +497,9 @@ class CallMixin:
                 outs.append((q, Exc(exc, f"{w}:{fn.qual}")))
         if not fn.pure:
             self.havoc_for_spec(p, fn.modifies)
+        if getattr(fn, "edits_ir", False):
+            # a callee declared to edit IR state: an edit event for the effect obligations (ir_clean(), g_edits)
+            self.mark_dirty(p, f"{fn.qual or fn.fqn} at {w}")
         res = fn.ret.fresh("ret_" + (fn.qual or "f").replace(".", "_")) if fn.ret is not None else VNone()
         if fn.ret is not None:
             self.assume_typed(p, res)
